@@ -922,3 +922,19 @@ mod tests {
 			prng_seed, hops, recipient_amount, pay_secret)
 	}
 }
+
+#[cfg(feature = "_verif")]
+#[allow(missing_docs)]
+pub mod verif_hooks {
+	use super::*;
+	pub fn check_incoming_htlc_cltv(
+		cur_height: u32, outgoing_cltv_value: u32, cltv_expiry: u32, min_cltv_expiry_delta: u16,
+	) -> Result<(), LocalHTLCFailureReason> {
+		super::check_incoming_htlc_cltv(
+			cur_height,
+			outgoing_cltv_value,
+			cltv_expiry,
+			min_cltv_expiry_delta,
+		)
+	}
+}
